@@ -1,0 +1,25 @@
+//go:build verif
+// +build verif
+
+package matcher
+
+// VerifDescribe exposes the kind of a matcher and the names of the options/argument it targets.
+// Only compiled with -tags verif (runtime monitors kept in /verif).
+func VerifDescribe(m Matcher) (kind string, names []string) {
+	switch t := m.(type) {
+	case *arg:
+		return "arg", []string{t.arg.Name}
+	case *opt:
+		return "opt", []string{t.theOne.Names[0]}
+	case *options:
+		for _, o := range t.options {
+			names = append(names, o.Names[0])
+		}
+		return "grp", names
+	case optsEnd:
+		return "dd", nil
+	case shortcut:
+		return "eps", nil
+	}
+	return "unknown", nil
+}
